@@ -3,8 +3,9 @@
 // unit, after units/shared/market_state.inc (needs `State`, `DealProposal`, `pend`, `props_m`).
 
 // ---- lib.rs publish_storage_deals: `struct ValidDeal` is declared INSIDE the function body, where `//@ item` cannot reach it.
-// Re-stated here field for field (a type declaration, no behaviour). If the real struct changes shape the generated file stops
-// compiling (exit 2), it cannot silently drift.
+// Re-stated here field for field (a type declaration, no behaviour). The whole-method directive removes the fn-local declaration by a token
+// substitution that spells out its exact text, so if the real struct changes shape the substitution no longer matches (vx exit 2): it cannot
+// silently drift.
 pub struct ValidDeal {
     pub proposal: DealProposal,
     pub serialized_proposal: RawBytes,
@@ -86,7 +87,6 @@ pub open spec fn total_filecoin_spec() -> int { 2_000_000_000 * pow10_18() }
 /// stands for `&TOTAL_FILECOIN` / `TOTAL_FILECOIN` (vx substitutes the two spellings; lazy_static has no Verus model)
 #[verifier::external_body]
 pub fn total_filecoin() -> (r: &'static TokenAmount) ensures r@ == total_filecoin_spec() { unimplemented!() }
-// ---- network constant (runtime/src/runtime/policy.rs `EPOCHS_IN_DAY` = 2880 with 30 s epochs) is extracted in the unit ----
 // ---- Runtime::total_fil_circ_supply: the circulating supply reported by the FVM — a non-negative amount ------------------
 impl Rt {
     #[verifier::external_body]
